@@ -26,6 +26,7 @@ def tokenise (ws : List String) : Option (List Tok × Names) :=
     else match w with
       | "(" => some (ts ++ [.lp], nm) | ")" => some (ts ++ [.rp], nm) | "[" => some (ts ++ [.lb], nm) | "]" => some (ts ++ [.rb], nm)
       | "{" => some (ts ++ [.lc], nm) | "}" => some (ts ++ [.rc], nm) | "," => some (ts ++ [.comma], nm) | ";" => some (ts ++ [.semi], nm)
+      | "." => some (ts ++ [.dot], nm) | "swz" => some (ts ++ [.swz], nm)
       | "_" => some (ts ++ [.sp], nm) | ":" => some (ts ++ [.colon], nm) | ".." => some (ts ++ [.dots false], nm) | "..=" => some (ts ++ [.dots true], nm)
       | "neg" => some (ts ++ [.dash], nm) | "sub" => some (ts ++ [.dash], nm) | "not" => some (ts ++ [.bang], nm) | "tr" => some (ts ++ [.quote], nm)
       | "~" => some (ts ++ [.tilde], nm) | ":=" => some (ts ++ [.define], nm) | "=" => some (ts ++ [.assign], nm) | "NL" => some (ts ++ [.nl], nm)
@@ -36,7 +37,6 @@ def fmtSym (name : String) : String :=
   match name with
   | "or" => "||" | "and" => "&&" | "xor" => "⊻" | "eq" => "⩵" | "ne" => "≠" | "lt" => "<" | "le" => "≤" | "gt" => ">" | "ge" => "≥"
   | "add" => "+" | "sub" => "-" | "mul" => "*" | "div" => "/" | "mod" => "%" | "pow" => "^"
-  | "matmul" => "**" | "dot" => "·" | "cross" => "⨯" | "solve" => "\\"
   | "join" => "⋈" | "ljoin" => "⟕" | "rjoin" => "⟖" | "fjoin" => "⟗" | "semi" => "⋉" | "anti" => "▷"
   | "union" => "∪" | "inter" => "∩" | "diff" => "∖" | "symdiff" => "Δ" | "subset" => "⊆" | "superset" => "⊇"
   | "psubset" => "⊊" | "psuperset" => "⊋" | "elem" => "∈" | "notelem" => "∉" | _ => "?"
@@ -61,7 +61,7 @@ partial def sxF (nm : Names) : Fac → String
   | .recd bs => "(rec " ++ sp (bs.map (fun b => match b with
       | .mk x k e => "(bind " ++ nm.ids.getD x "?" ++ " " ++ (match k with | some k => kindToks (nm.kinds.getD k "?") | none => "-") ++ " " ++ sxE nm e ++ ")")) ++ ")"
   | .map ms => if ms.isEmpty then "(map)" else "(map " ++ sp (ms.map (fun m => match m with | .mk k v => "(kv " ++ sxE nm k ++ " " ++ sxE nm v ++ ")")) ++ ")"
-  | .slice x subs => "(slice " ++ nm.ids.getD x "?" ++ " " ++ sp (subs.map (sxS nm)) ++ ")"
+  | .slice x sels => "(slice " ++ nm.ids.getD x "?" ++ " " ++ sp (sels.map (sxL nm)) ++ ")"
   | .paren t => "(paren " ++ sxT nm t ++ ")"
   | .neg f => "(neg " ++ sxF nm f ++ ")"
   | .not f => "(not " ++ sxF nm f ++ ")"
@@ -76,6 +76,12 @@ partial def sxE (nm : Names) : Ex Fac → String
 partial def sxS (nm : Names) : Syntax.Sub Fac → String
   | .all => ":"
   | .ex e => sxE nm e
+partial def sxL (nm : Names) : Syntax.Sel Fac → String
+  | .bracket ss => "(br " ++ sp (ss.map (sxS nm)) ++ ")"
+  | .brace ss => "(bc " ++ sp (ss.map (sxS nm)) ++ ")"
+  | .dot y => "(dot " ++ nm.ids.getD y "?" ++ ")"
+  | .dotInt k => "(doti " ++ nm.lits.getD k "?" ++ ")"
+  | .swizzle y ys => "(swz " ++ sp ((y :: ys).map (fun z => nm.ids.getD z "?")) ++ ")"
 partial def sxA (nm : Names) : Syntax.Arg Fac → String
   | .pos e => sxE nm e
   | .named x e => "(named " ++ nm.ids.getD x "?" ++ " " ++ sxE nm e ++ ")"
@@ -84,12 +90,12 @@ end
 def sxStmt (nm : Names) : Stmt → String
   | .define mu x k e => "(def " ++ (if mu then "1" else "0") ++ " " ++ nm.ids.getD x "?" ++ " " ++
       (match k with | some k => kindToks (nm.kinds.getD k "?") | none => "-") ++ " " ++ sxE nm e ++ ")"
-  | .assign x subs e => "(asg " ++ nm.ids.getD x "?" ++ " [" ++ sp (subs.map (sxS nm)) ++ "] " ++ sxE nm e ++ ")"
-  | .opAssign x subs k e => "(opa " ++ toString k ++ " " ++ nm.ids.getD x "?" ++ " [" ++ sp (subs.map (sxS nm)) ++ "] " ++ sxE nm e ++ ")"
+  | .assign x sels e => "(asg " ++ nm.ids.getD x "?" ++ " [" ++ sp (sels.map (sxL nm)) ++ "] " ++ sxE nm e ++ ")"
+  | .opAssign x sels k e => "(opa " ++ toString k ++ " " ++ nm.ids.getD x "?" ++ " [" ++ sp (sels.map (sxL nm)) ++ "] " ++ sxE nm e ++ ")"
 
 /-- the formatter's spelling of a token and the spacing around it: operators between single spaces,
-    `, ` in call arguments, sets, records and maps, `: ` after an argument name, a binding name and a map key, `,` in
-    tuples and subscripts, `; ` between matrix rows, `{:}` for the empty map -/
+    `, ` in call arguments, sets, records and maps, `: ` after an argument name, a binding name and a map key, `, ` in
+    tuples and subscripts, `,` (no space) inside a swizzle, nothing between the subscripts of a chain, `; ` between matrix rows, `{:}` for the empty map -/
 def opAssignSym (k : Nat) : String := ["+=", "-=", "*=", "/=", "^="].getD k "?="
 
 mutual
@@ -98,15 +104,15 @@ partial def txF (nm : Names) : Fac → String
   | .var n => nm.ids.getD n "?"
   | .call f args => nm.ids.getD f "?" ++ "(" ++ ", ".intercalate (args.map (txA nm)) ++ ")"
   | .mat rows => "[" ++ "; ".intercalate (rows.map (fun r => " ".intercalate (r.map (txE nm)))) ++ "]"
-  | .tup es => "(" ++ ",".intercalate (es.map (txE nm)) ++ ")"
+  | .tup es => "(" ++ ", ".intercalate (es.map (txE nm)) ++ ")"
   | .set es => "{" ++ ", ".intercalate (es.map (txE nm)) ++ "}"
   | .recd bs => "{" ++ ", ".intercalate (bs.map (fun b => match b with
       | .mk x k e => nm.ids.getD x "?" ++ (match k with | some k => "<" ++ nm.kinds.getD k "?" ++ ">" | none => "") ++ ": " ++ txE nm e)) ++ "}"
   | .map ms => if ms.isEmpty then "{:}" else "{" ++ ", ".intercalate (ms.map (fun m => match m with | .mk k v => txE nm k ++ ": " ++ txE nm v)) ++ "}"
-  | .slice x subs => nm.ids.getD x "?" ++ "[" ++ ",".intercalate (subs.map (txS nm)) ++ "]"
+  | .slice x sels => nm.ids.getD x "?" ++ "".intercalate (sels.map (txL nm))
   | .paren t => "(" ++ txT nm t ++ ")"
   | .neg f => "-" ++ txF nm f
-  | .not f => "¬" ++ txF nm f
+  | .not f => "!" ++ txF nm f
   | .tr f => txF nm f ++ "'"
 partial def txT (nm : Names) : Tree Fac → String
   | .leaf f => txF nm f
@@ -118,13 +124,19 @@ partial def txE (nm : Names) : Ex Fac → String
 partial def txS (nm : Names) : Syntax.Sub Fac → String
   | .all => ":"
   | .ex e => txE nm e
+partial def txL (nm : Names) : Syntax.Sel Fac → String
+  | .bracket ss => "[" ++ ", ".intercalate (ss.map (txS nm)) ++ "]"
+  | .brace ss => "{" ++ ", ".intercalate (ss.map (txS nm)) ++ "}"
+  | .dot y => "." ++ nm.ids.getD y "?"
+  | .dotInt k => "." ++ nm.lits.getD k "?"
+  | .swizzle y ys => "." ++ ",".intercalate ((y :: ys).map (fun z => nm.ids.getD z "?"))
 partial def txA (nm : Names) : Syntax.Arg Fac → String
   | .pos e => txE nm e
   | .named x e => nm.ids.getD x "?" ++ ": " ++ txE nm e
 end
 
-def txTarget (nm : Names) (x : Nat) (subs : List (Syntax.Sub Fac)) : String :=
-  nm.ids.getD x "?" ++ (if subs.isEmpty then "" else "[" ++ ",".intercalate (subs.map (txS nm)) ++ "]")
+def txTarget (nm : Names) (x : Nat) (sels : List (Syntax.Sel Fac)) : String :=
+  nm.ids.getD x "?" ++ "".intercalate (sels.map (txL nm))
 
 def txStmt (nm : Names) : Stmt → String
   | .define mu x k e => (if mu then "~" else "") ++ nm.ids.getD x "?" ++ (match k with | some k => "<" ++ nm.kinds.getD k "?" ++ ">" | none => "") ++ " := " ++ txE nm e
